@@ -3,8 +3,8 @@
 generate()       -> Gen/C11_Netutils.v : the values the address validators depend on, read from the AST of
                     the functions after checking that each function still has the statement structure the
                     hand-written model (coq/Model/C11.v) follows:
-                      mac_re (the pattern of is_valid_mac through CPython's re parser), scope_sep / scope_min /
-                      scope_max (is_valid_ipv6), the except tuples of the four address validators, cidr_sep /
+                      mac_re, mac_eos (the pattern of is_valid_mac through CPython's re parser), scope_sep / scope_min /
+                      scope_max / scope_forbidden (is_valid_ipv6), the except tuples of the four address validators, cidr_sep /
                       cidr_seg_bad_max (is_valid_cidr), ipv4_strict_default, ip_v4_strict (is_valid_ip).
 generate_code()  -> Gen/C11_Code.v : statement-level translation (py2gal) of _is_int_in_range, is_valid_port,
                     is_valid_icmp_type, is_valid_icmp_code.
@@ -38,7 +38,7 @@ def is_valid_ipv6(address):
     parts = address.rsplit('@scope_sep', 1)
     address = parts[0]
     scope = parts[1] if len(parts) > 1 else None
-    if scope is not None and (len(scope) < '@scope_min' or len(scope) > '@scope_max'):
+    if scope is not None and (len(scope) < '@scope_min' or len(scope) > '@scope_max' or '@scope_forbidden' in scope):
         return False
     try:
         return netaddr.valid_ipv6(address, netaddr.core.INET_PTON)
@@ -155,6 +155,21 @@ def _exc(v, what):
         raise GenError('%s: except clause names an unknown class %s' % (what, e))
 
 
+def mac_regex(pat):
+    """Base/Regex.v has no end-of-string anchor: a trailing \\Z is split off and reported as a flag
+    (the model then matches the body with the continuation "the rest of the subject is empty", which is
+    what `body\\Z` means under backtracking); a \\Z anywhere else is outside the fragment."""
+    import re._parser as P
+    from re._constants import AT, AT_END_STRING
+    tree = P.parse(pat, 0)
+    items = list(tree)
+    eos = bool(items) and items[-1] == (AT, AT_END_STRING)
+    if eos: items = items[:-1]
+    if tree.state.flags & ~32:      # anything but the default UNICODE flag
+        raise regex_tr.Unsupported('inline flags')
+    return regex_tr.tr_seq(items, tree.state.flags), eos
+
+
 def generate():
     tree = repo_ast(SRC)
     h = {}
@@ -164,7 +179,7 @@ def generate():
     if not isinstance(pat, str):
         raise GenError('is_valid_mac: pattern is not a string literal')
     try:
-        mac_re, _ = regex_tr.regex_to_coq(pat, 0)
+        mac_re, mac_eos = mac_regex(pat)
     except regex_tr.Unsupported as e:
         raise GenError('is_valid_mac: pattern outside the supported regex fragment: %s' % e)
     out = [HEADER % (SRC, 'tools/gen/gen_C11.py')]
@@ -172,10 +187,14 @@ def generate():
     out.append('Open Scope N_scope.')
     out.append('(* is_valid_mac: re.match(%r, address.lower()) *)' % pat.replace('*)', '* )'))
     out.append('Definition mac_re : re := %s.' % mac_re)
-    out.append('(* is_valid_ipv6: address.rsplit(scope_sep, 1); len(scope) < scope_min or len(scope) > scope_max -> False *)')
+    out.append('(* the pattern ends in \\Z (end of string), split off by the translator *)')
+    out.append('Definition mac_eos : bool := %s.' % ('true' if mac_eos else 'false'))
+    out.append('(* is_valid_ipv6: address.rsplit(scope_sep, 1); len(scope) < scope_min or len(scope) > scope_max *)')
     out.append('Definition scope_sep : N := %d.' % _char(h['scope_sep'], 'is_valid_ipv6'))
     out.append('Definition scope_min : Z := (%d)%%Z.' % _int(h['scope_min'], 'is_valid_ipv6'))
     out.append('Definition scope_max : Z := (%d)%%Z.' % _int(h['scope_max'], 'is_valid_ipv6'))
+    out.append('(* ... or scope_forbidden in scope -> False *)')
+    out.append('Definition scope_forbidden : N := %d.' % _char(h['scope_forbidden'], 'is_valid_ipv6'))
     out.append('(* the except tuples *)')
     out.append('Definition ipv4_caught : list aexn := %s.' % _exc(h['ipv4_caught'], 'is_valid_ipv4'))
     out.append('Definition ipv6_caught : list aexn := %s.' % _exc(h['ipv6_caught'], 'is_valid_ipv6'))
